@@ -12,7 +12,8 @@ head=$(git rev-parse --short HEAD)
 trap 'git -C /repo checkout -- .' EXIT
 for id in "${ids[@]}"; do
   d=/verif/seeded/$id; p=$d/patch.rebased.diff; [ -f $p ] || p=$d/patch.diff
-  prop=$(python3 -c "import json;print(json.load(open('$d/meta.json'))['property'])")
+  # the check that is expected to report it: the targeted property's, unless meta.json names another
+  prop=$(python3 -c "import json;m=json.load(open('$d/meta.json'));print(m.get('reported_by') or m['property'])")
   git -C /repo checkout -- .
   if ! git -C /repo apply $p; then echo "$id: patch does not apply"; continue; fi
   s=$(date +%s)
